@@ -69,6 +69,7 @@ def main():
         shutil.rmtree(os.path.join(wt, 'target'), ignore_errors=True)
         env2 = dict(os.environ)
         env2['VERIF_REPO'] = wt
+        env2['VERIF_SCRATCH_TARGET'] = scratch_t = tempfile.mkdtemp(prefix='fpdec-verif-tgt.')
         scratch_out = tempfile.mkdtemp(prefix='fpdec-verif-mutout.')
         env2['VERIF_EVIDENCE_DIR'] = os.path.join(scratch_out, 'evidence')
         env2['VERIF_REPLAY_DIR'] = os.path.join(scratch_out, 'replays')
@@ -94,6 +95,14 @@ def main():
             fcntl.flock(lk, fcntl.LOCK_EX)
             sh(['git', '-C', '/repo', 'worktree', 'remove', '--force', wt])
         shutil.rmtree(wt, ignore_errors=True)
+        try:
+            shutil.rmtree(scratch_out, ignore_errors=True)
+        except NameError:
+            pass
+        try:
+            shutil.rmtree(scratch_t, ignore_errors=True)
+        except NameError:
+            pass
     print(json.dumps(out, indent=1))
 
 
